@@ -178,16 +178,9 @@ fn finish(o: &Opts, prop: &str, mut rep: Report, cases: Vec<String>) -> Report {
     rep
 }
 
+/// the value stream of the enum checks (numeric-name variables, placeholder operands, a wide value, every constructor)
 fn value_stream(rng: &mut Rng, fm: &Fm, n: usize, thorough: bool) -> Vec<Narsese> {
-    let g = term_gen_for(fm, if thorough { 6 } else { 4 }, if thorough { 5 } else { 4 });
-    let mut out = vec![];
-    for k in 0..30 {
-        out.push(gen_narsese(rng, &g, k % 3, Some(k)));
-    }
-    for i in 0..n {
-        out.push(gen_narsese(rng, &g, i % 3, None));
-    }
-    out
+    crate::enumprops::value_stream(rng, fm, n, thorough)
 }
 
 // -------------------------------------------------------------------------------------------
